@@ -1,14 +1,22 @@
 // Package zz_verifmodel holds the environment models that gosym substitutes for library
 // functions whose real bodies are out of reach (fmt's reflection-driven printer). They are
 // ordinary Go, interpreted symbolically like the code under test; natively the real functions run.
+//
+// The printer covers: verbs v s d c q x X t b o f F e E g G T and %%, flags + - # 0 and space,
+// decimal or '*' width and precision, Formatter / error / Stringer operands, and operands of
+// kind bool, integer, float, string, []byte, slice, array, struct, pointer-to-aggregate and
+// interface. Anything else (maps, %#v, %U, %p, addresses, indexed operands) is declined with a
+// panic whose text starts "zz_verifmodel: ", which the engine reports as unsupported
+// (UNDECIDED), never as a behaviour of the code under test.
 package zz_verifmodel
 
 import (
-	"errors"
 	"fmt"
 	"io"
 	"reflect"
 	"strconv"
+	"strings"
+	"unicode/utf8"
 )
 
 // state implements fmt.State for Formatter operands.
@@ -21,6 +29,7 @@ type state struct {
 	sharp, plus   bool
 	minus, space  bool
 	zero          bool
+	plusV         bool // %+v: field names, and no '+' on numbers
 }
 
 func (s *state) Write(b []byte) (int, error) {
@@ -49,109 +58,401 @@ func (s *state) Flag(c int) bool {
 	return false
 }
 
-func appendUint(b []byte, u uint64) []byte {
-	var tmp [20]byte
+func decline(what string) { panic("zz_verifmodel: " + what) }
+
+func appendUint(b []byte, u uint64, base uint64, upper bool) []byte {
+	digits := "0123456789abcdef"
+	if upper {
+		digits = "0123456789ABCDEF"
+	}
+	var tmp [64]byte
 	i := len(tmp)
-	for u >= 10 {
+	for u >= base {
 		i--
-		tmp[i] = byte('0' + u%10)
-		u /= 10
+		tmp[i] = digits[u%base]
+		u /= base
 	}
 	i--
-	tmp[i] = byte('0' + u)
+	tmp[i] = digits[u]
 	return append(b, tmp[i:]...)
 }
 
-func appendInt(b []byte, v int64) []byte {
-	if v < 0 {
-		b = append(b, '-')
-		return appendUint(b, uint64(-v))
+func isExported(name string) bool { return name != "" && name[0] >= 'A' && name[0] <= 'Z' }
+
+// fmtInteger renders a signed or unsigned integer under verb. neg reports a negative value whose
+// magnitude is u.
+func (s *state) fmtInteger(b []byte, verb rune, u uint64, neg bool, typ string) []byte {
+	switch verb {
+	case 'v', 'd':
+		return s.fmtBase(b, u, neg, 10, false, "")
+	case 'b':
+		return s.fmtBase(b, u, neg, 2, false, "0b")
+	case 'o':
+		return s.fmtBase(b, u, neg, 8, false, "0")
+	case 'x':
+		return s.fmtBase(b, u, neg, 16, false, "0x")
+	case 'X':
+		return s.fmtBase(b, u, neg, 16, true, "0X")
+	case 'c':
+		r := rune(u)
+		if neg || u > utf8.MaxRune {
+			r = utf8.RuneError
+		}
+		return utf8.AppendRune(b, r)
+	case 'q':
+		r := rune(u)
+		if neg || u > utf8.MaxRune {
+			r = utf8.RuneError
+		}
+		return strconv.AppendQuoteRune(b, r)
 	}
-	return appendUint(b, uint64(v))
+	return s.badVerb(b, verb, typ, func(b []byte) []byte { return s.fmtBase(b, u, neg, 10, false, "") })
 }
 
-// printValue renders one operand for verb (one of 's','d','v','c'); prec is used for floats.
-func printValue(s *state, verb rune, a interface{}, prec int, precOK bool) {
-	if a == nil {
-		s.Write([]byte("<nil>"))
-		return
+func (s *state) fmtBase(b []byte, u uint64, neg bool, base uint64, upper bool, prefix string) []byte {
+	switch {
+	case neg:
+		b = append(b, '-')
+	case s.plus:
+		b = append(b, '+')
+	case s.space:
+		b = append(b, ' ')
 	}
-	if f, ok := a.(fmt.Formatter); ok {
-		f.Format(s, verb)
-		return
+	if s.sharp {
+		b = append(b, prefix...)
 	}
-	if verb != 'd' && verb != 'c' {
+	d := appendUint(nil, u, base, upper)
+	if s.precOK {
+		if s.prec == 0 && u == 0 {
+			return b
+		}
+		for k := len(d); k < s.prec; k++ {
+			b = append(b, '0')
+		}
+	}
+	return append(b, d...)
+}
+
+func (s *state) fmtFloat(b []byte, verb rune, v float64, bits int, typ string) []byte {
+	f, p := byte(0), -1
+	switch verb {
+	case 'v':
+		f = 'g'
+	case 'e', 'E', 'f', 'g', 'G':
+		f = byte(verb)
+		if verb != 'g' && verb != 'G' {
+			p = 6
+		}
+	case 'F':
+		f, p = 'f', 6
+	default:
+		return s.badVerb(b, verb, typ, func(b []byte) []byte { return strconv.AppendFloat(b, v, 'g', -1, bits) })
+	}
+	if s.precOK {
+		p = s.prec
+	}
+	if s.sharp {
+		decline("'#' flag on a float")
+	}
+	d := strconv.AppendFloat(nil, v, f, p, bits)
+	if len(d) > 0 && d[0] != '-' && d[0] != '+' {
+		if s.plus {
+			b = append(b, '+')
+		} else if s.space {
+			b = append(b, ' ')
+		}
+	}
+	return append(b, d...)
+}
+
+func (s *state) fmtString(b []byte, verb rune, v string, typ string) []byte {
+	if s.precOK && (verb == 'v' || verb == 's' || verb == 'q') {
+		n := 0
+		for i := range v {
+			if n == s.prec {
+				v = v[:i]
+				break
+			}
+			n++
+		}
+	}
+	switch verb {
+	case 'v', 's':
+		return append(b, v...)
+	case 'q':
+		if s.sharp {
+			decline("%#q")
+		}
+		if s.plus {
+			return strconv.AppendQuoteToASCII(b, v)
+		}
+		return strconv.AppendQuote(b, v)
+	case 'x', 'X':
+		if s.sharp || s.space {
+			decline("'#' or ' ' flag on %x of a string")
+		}
+		for i := 0; i < len(v); i++ {
+			if v[i] < 16 {
+				b = append(b, '0')
+			}
+			b = appendUint(b, uint64(v[i]), 16, verb == 'X')
+		}
+		return b
+	}
+	return s.badVerb(b, verb, typ, func(b []byte) []byte { return append(b, v...) })
+}
+
+func (s *state) badVerb(b []byte, verb rune, typ string, val func([]byte) []byte) []byte {
+	b = append(b, "%!"...)
+	b = utf8.AppendRune(b, verb)
+	b = append(b, '(')
+	b = append(b, typ...)
+	b = append(b, '=')
+	b = val(b)
+	return append(b, ')')
+}
+
+// methods renders an operand through its error / Stringer method where fmt would.
+func (s *state) methods(b []byte, verb rune, a interface{}) ([]byte, bool) {
+	if s.sharp && verb == 'v' {
+		decline("%#v")
+	}
+	switch verb {
+	case 'v', 's', 'x', 'X', 'q':
 		switch v := a.(type) {
 		case error:
-			s.Write([]byte(v.Error()))
-			return
+			return s.fmtString(b, verb, v.Error(), "string"), true
 		case fmt.Stringer:
-			s.Write([]byte(v.String()))
-			return
+			return s.fmtString(b, verb, v.String(), "string"), true
 		}
+	}
+	return b, false
+}
+
+// operand renders a top-level operand (or an element reachable through exported names).
+func (s *state) operand(b []byte, verb rune, a interface{}, depth int) []byte {
+	if a == nil {
+		if verb == 'v' {
+			return append(b, "<nil>"...)
+		}
+		b = append(b, "%!"...)
+		b = utf8.AppendRune(b, verb)
+		return append(b, "(<nil>)"...)
+	}
+	if verb == 'T' {
+		return append(b, reflect.TypeOf(a).String()...)
+	}
+	if r, ok := s.methods(b, verb, a); ok {
+		return r
 	}
 	switch v := a.(type) {
 	case string:
-		s.Write([]byte(v))
-		return
-	case []byte:
-		s.Write(v)
-		return
+		return s.fmtString(b, verb, v, "string")
 	case int:
-		if verb == 'c' {
-			s.Write([]byte(string(rune(v))))
-			return
+		if v < 0 {
+			return s.fmtInteger(b, verb, uint64(-v), true, "int")
 		}
-		s.Write(appendInt(nil, int64(v)))
-		return
-	case float64:
-		p := -1
-		f := byte('g')
-		if precOK {
-			p, f = prec, 'f'
-		}
-		s.Write([]byte(strconv.FormatFloat(v, f, p, 64)))
-		return
+		return s.fmtInteger(b, verb, uint64(v), false, "int")
+	case bool:
+		return s.fmtBool(b, verb, v)
 	}
-	rv := reflect.ValueOf(a)
-	switch rv.Kind() {
-	case reflect.String:
-		s.Write([]byte(rv.String()))
-	case reflect.Int, reflect.Int8, reflect.Int16, reflect.Int32, reflect.Int64:
-		if verb == 'c' {
-			s.Write([]byte(string(rune(rv.Int()))))
-			return
-		}
-		s.Write(appendInt(nil, rv.Int()))
-	case reflect.Uint, reflect.Uint8, reflect.Uint16, reflect.Uint32, reflect.Uint64:
-		if verb == 'c' {
-			s.Write([]byte(string(rune(rv.Uint()))))
-			return
-		}
-		s.Write(appendUint(nil, rv.Uint()))
-	case reflect.Float64, reflect.Float32:
-		p := -1
-		f := byte('g')
-		if precOK {
-			p, f = prec, 'f'
-		}
-		s.Write([]byte(strconv.FormatFloat(rv.Float(), f, p, 64)))
-	default:
-		panic("zz_verifmodel: unsupported operand kind in fmt model")
-	}
+	return s.value(b, verb, reflect.ValueOf(a), depth, true)
 }
 
-// Fprintf: verbs %s %d %v %c %%, with optional '*' width and '.*' precision.
+func (s *state) fmtBool(b []byte, verb rune, v bool) []byte {
+	val := func(b []byte) []byte {
+		if v {
+			return append(b, "true"...)
+		}
+		return append(b, "false"...)
+	}
+	if verb == 'v' || verb == 't' {
+		return val(b)
+	}
+	return s.badVerb(b, verb, "bool", val)
+}
+
+// value renders by kind. exported is false below an unexported struct field, where fmt does
+// not call methods.
+func (s *state) value(b []byte, verb rune, rv reflect.Value, depth int, exported bool) []byte {
+	if depth > 0 && exported && rv.IsValid() {
+		switch rv.Kind() {
+		case reflect.Interface, reflect.Ptr, reflect.Slice, reflect.Map:
+			if rv.IsNil() {
+				exported = false // nothing to call a method on
+			}
+		}
+		if exported {
+			a := rv.Interface()
+			if f, ok := a.(fmt.Formatter); ok {
+				_ = f
+				decline("Formatter operand nested in an aggregate")
+			}
+			if r, ok := s.methods(b, verb, a); ok {
+				return r
+			}
+		}
+	}
+	typ := func() string { return rv.Type().String() }
+	switch rv.Kind() {
+	case reflect.Bool:
+		return s.fmtBool(b, verb, rv.Bool())
+	case reflect.Int, reflect.Int8, reflect.Int16, reflect.Int32, reflect.Int64:
+		v := rv.Int()
+		if v < 0 {
+			return s.fmtInteger(b, verb, uint64(-v), true, typ())
+		}
+		return s.fmtInteger(b, verb, uint64(v), false, typ())
+	case reflect.Uint, reflect.Uint8, reflect.Uint16, reflect.Uint32, reflect.Uint64, reflect.Uintptr:
+		return s.fmtInteger(b, verb, rv.Uint(), false, typ())
+	case reflect.Float32:
+		return s.fmtFloat(b, verb, rv.Float(), 32, typ())
+	case reflect.Float64:
+		return s.fmtFloat(b, verb, rv.Float(), 64, typ())
+	case reflect.String:
+		return s.fmtString(b, verb, rv.String(), typ())
+	case reflect.Slice, reflect.Array:
+		if rv.Type().Elem().Kind() == reflect.Uint8 {
+			switch verb {
+			case 's', 'q', 'x', 'X':
+				p := make([]byte, rv.Len())
+				for i := range p {
+					p[i] = byte(rv.Index(i).Uint())
+				}
+				return s.fmtString(b, verb, string(p), typ())
+			}
+		}
+		b = append(b, '[')
+		for i := 0; i < rv.Len(); i++ {
+			if i > 0 {
+				b = append(b, ' ')
+			}
+			b = s.value(b, verb, rv.Index(i), depth+1, exported)
+		}
+		return append(b, ']')
+	case reflect.Struct:
+		b = append(b, '{')
+		t := rv.Type()
+		for i := 0; i < rv.NumField(); i++ {
+			if i > 0 {
+				b = append(b, ' ')
+			}
+			name := t.Field(i).Name
+			if s.plusV {
+				b = append(b, name...)
+				b = append(b, ':')
+			}
+			b = s.value(b, verb, rv.Field(i), depth+1, exported && isExported(name))
+		}
+		return append(b, '}')
+	case reflect.Interface:
+		if rv.IsNil() {
+			return append(b, "<nil>"...)
+		}
+		return s.value(b, verb, rv.Elem(), depth+1, exported)
+	case reflect.Ptr:
+		if rv.IsNil() {
+			if verb == 'v' {
+				return append(b, "<nil>"...)
+			}
+			decline("nil pointer under a verb other than %v")
+		}
+		if depth == 0 {
+			switch rv.Elem().Kind() {
+			case reflect.Struct, reflect.Slice, reflect.Array:
+				b = append(b, '&')
+				return s.value(b, verb, rv.Elem(), depth+1, exported)
+			}
+		}
+		decline("printing an address")
+	}
+	decline("operand kind not covered (map, chan, func, complex, unsafe pointer)")
+	return b
+}
+
+// pad writes b padded to the width.
+func (s *state) pad(b []byte, numeric bool) {
+	if !s.widOK {
+		s.Write(b)
+		return
+	}
+	n := s.wid - utf8.RuneCount(b)
+	if n <= 0 {
+		s.Write(b)
+		return
+	}
+	if s.minus {
+		s.Write(b)
+		s.Write([]byte(strings.Repeat(" ", n)))
+		return
+	}
+	if s.zero {
+		k := 0
+		if numeric && len(b) > 0 && (b[0] == '-' || b[0] == '+' || b[0] == ' ') {
+			k = 1
+		}
+		s.Write(b[:k])
+		s.Write([]byte(strings.Repeat("0", n)))
+		s.Write(b[k:])
+		return
+	}
+	s.Write([]byte(strings.Repeat(" ", n)))
+	s.Write(b)
+}
+
+func isNumericOperand(a interface{}) bool {
+	if a == nil {
+		return false
+	}
+	switch reflect.ValueOf(a).Kind() {
+	case reflect.Int, reflect.Int8, reflect.Int16, reflect.Int32, reflect.Int64,
+		reflect.Uint, reflect.Uint8, reflect.Uint16, reflect.Uint32, reflect.Uint64, reflect.Uintptr,
+		reflect.Float32, reflect.Float64:
+		return true
+	}
+	return false
+}
+
+// printValue renders one operand for verb with the flags currently in s.
+func printValue(s *state, verb rune, a interface{}) {
+	if verb == 'v' && s.plus {
+		s.plus, s.plusV = false, true
+		defer func() { s.plus, s.plusV = true, false }()
+	}
+	if f, ok := a.(fmt.Formatter); ok && verb != 'T' {
+		f.Format(s, verb)
+		return
+	}
+	if !s.widOK {
+		// common case: no buffering needed beyond the operand itself
+		s.Write(s.operand(nil, verb, a, 0))
+		return
+	}
+	if s.zero && s.precOK && isNumericOperand(a) {
+		switch verb {
+		case 'd', 'v', 'x', 'X', 'o', 'b':
+			decline("'0' flag together with a precision on an integer")
+		}
+	}
+	s.pad(s.operand(nil, verb, a, 0), isNumericOperand(a))
+}
+
+func (s *state) reset() {
+	s.widOK, s.precOK, s.sharp, s.plus, s.minus, s.space, s.zero, s.plusV = false, false, false, false, false, false, false, false
+	s.wid, s.prec = 0, 0
+}
+
+// Fprintf interprets format as fmt does for the supported subset.
 func Fprintf(w io.Writer, format string, a ...interface{}) (int, error) {
 	s := &state{w: w}
 	arg := 0
-	next := func() interface{} {
+	next := func() (interface{}, bool) {
 		if arg >= len(a) {
-			panic("zz_verifmodel: missing operand")
+			return nil, false
 		}
 		x := a[arg]
 		arg++
-		return x
+		return x, true
 	}
 	lit := 0
 	for i := 0; i < len(format); i++ {
@@ -162,53 +463,145 @@ func Fprintf(w io.Writer, format string, a ...interface{}) (int, error) {
 			s.Write([]byte(format[lit:i]))
 		}
 		i++
-		s.widOK, s.precOK, s.sharp = false, false, false
-		if i < len(format) && format[i] == '#' {
-			s.sharp = true
-			i++
+		s.reset()
+	flags:
+		for ; i < len(format); i++ {
+			switch format[i] {
+			case '#':
+				s.sharp = true
+			case '+':
+				s.plus = true
+			case '-':
+				s.minus = true
+				s.zero = false
+			case ' ':
+				s.space = true
+			case '0':
+				s.zero = !s.minus
+			default:
+				break flags
+			}
 		}
 		if i < len(format) && format[i] == '*' {
-			s.wid, s.widOK = next().(int), true
+			x, ok := next()
+			n, isInt := x.(int)
+			if !ok || !isInt {
+				decline("bad '*' width operand")
+			}
+			if n < 0 {
+				n = -n
+				s.minus = true
+				s.zero = false
+			}
+			s.wid, s.widOK = n, true
 			i++
+		} else {
+			for i < len(format) && format[i] >= '0' && format[i] <= '9' {
+				s.wid = s.wid*10 + int(format[i]-'0')
+				s.widOK = true
+				i++
+			}
 		}
-		if i+1 < len(format) && format[i] == '.' && format[i+1] == '*' {
-			s.prec, s.precOK = next().(int), true
-			i += 2
+		if i < len(format) && format[i] == '.' {
+			i++
+			s.precOK = true
+			if i < len(format) && format[i] == '*' {
+				x, ok := next()
+				n, isInt := x.(int)
+				if !ok || !isInt {
+					decline("bad '*' precision operand")
+				}
+				s.prec = n
+				if n < 0 {
+					s.prec, s.precOK = 0, false
+				}
+				i++
+			} else {
+				for i < len(format) && format[i] >= '0' && format[i] <= '9' {
+					s.prec = s.prec*10 + int(format[i]-'0')
+					i++
+				}
+			}
 		}
 		if i >= len(format) {
-			panic("zz_verifmodel: truncated format")
+			s.Write([]byte("%!(NOVERB)"))
+			lit = i
+			break
 		}
-		switch verb := rune(format[i]); verb {
+		verb, size := utf8.DecodeRuneInString(format[i:])
+		i += size - 1
+		switch verb {
 		case '%':
 			s.Write([]byte{'%'})
-		case 's', 'd', 'v', 'c':
-			printValue(s, verb, next(), s.prec, s.precOK)
+		case 's', 'd', 'v', 'c', 'q', 'x', 'X', 't', 'b', 'o', 'f', 'F', 'e', 'E', 'g', 'G', 'T', 'w':
+			x, ok := next()
+			if !ok {
+				s.Write([]byte("%!"))
+				s.Write([]byte(string(verb)))
+				s.Write([]byte("(MISSING)"))
+				break
+			}
+			if verb == 'w' {
+				verb = 'v' // Errorf handles the wrapping
+			}
+			printValue(s, verb, x)
+		case 'U', 'p', 'O':
+			decline("verb %" + string(verb))
 		default:
-			panic("zz_verifmodel: unsupported verb in fmt model: " + string(verb))
+			x, ok := next()
+			s.Write([]byte("%!"))
+			s.Write([]byte(string(verb)))
+			if !ok {
+				s.Write([]byte("(MISSING)"))
+				break
+			}
+			s.reset()
+			if x == nil {
+				s.Write([]byte("(<nil>)"))
+				break
+			}
+			s.Write([]byte{'('})
+			s.Write([]byte(reflect.TypeOf(x).String()))
+			s.Write([]byte{'='})
+			printValue(s, 'v', x)
+			s.Write([]byte{')'})
 		}
 		lit = i + 1
 	}
 	if lit < len(format) {
 		s.Write([]byte(format[lit:]))
 	}
+	if arg < len(a) {
+		s.Write([]byte("%!(EXTRA "))
+		for k := arg; k < len(a); k++ {
+			if k > arg {
+				s.Write([]byte(", "))
+			}
+			s.reset()
+			if a[k] == nil {
+				s.Write([]byte("<nil>"))
+				continue
+			}
+			s.Write([]byte(reflect.TypeOf(a[k]).String()))
+			s.Write([]byte{'='})
+			printValue(s, 'v', a[k])
+		}
+		s.Write([]byte{')'})
+	}
 	return s.n, s.err
+}
+
+func isString(x interface{}) bool {
+	return x != nil && reflect.TypeOf(x).Kind() == reflect.String
 }
 
 func Fprint(w io.Writer, a ...interface{}) (int, error) {
 	s := &state{w: w}
-	if st, ok := w.(*state); ok {
-		// printing into a Formatter's State: keep counting in the outer state as well
-		s = &state{w: st}
-	}
 	for i, x := range a {
-		if i > 0 {
-			_, s1 := a[i-1].(string)
-			_, s2 := x.(string)
-			if !s1 && !s2 {
-				s.Write([]byte{' '})
-			}
+		if i > 0 && !isString(a[i-1]) && !isString(x) {
+			s.Write([]byte{' '})
 		}
-		printValue(s, 'v', x, 0, false)
+		printValue(s, 'v', x)
 	}
 	return s.n, s.err
 }
@@ -219,7 +612,7 @@ func Fprintln(w io.Writer, a ...interface{}) (int, error) {
 		if i > 0 {
 			s.Write([]byte{' '})
 		}
-		printValue(s, 'v', x, 0, false)
+		printValue(s, 'v', x)
 	}
 	s.Write([]byte{'\n'})
 	return s.n, s.err
@@ -241,7 +634,56 @@ func Sprint(a ...interface{}) string {
 	return string(k.b)
 }
 
+func Sprintln(a ...interface{}) string {
+	k := &sink{}
+	Fprintln(k, a...)
+	return string(k.b)
+}
+
+type wrapError struct {
+	msg string
+	err error
+}
+
+func (e *wrapError) Error() string { return e.msg }
+func (e *wrapError) Unwrap() error { return e.err }
+
+type plainError struct{ msg string }
+
+func (e *plainError) Error() string { return e.msg }
+
+// Errorf supports at most one %w operand.
 func Errorf(format string, a ...interface{}) error {
-	defer func() { recover() }()
-	return errors.New("formatted error")
+	msg := Sprintf(format, a...)
+	if strings.Count(format, "%w") > 1 {
+		decline("Errorf with more than one %w")
+	}
+	arg := 0
+	for i := 0; i < len(format); i++ {
+		if format[i] != '%' {
+			continue
+		}
+		i++
+		for i < len(format) && strings.IndexByte("+-# 0123456789.", format[i]) >= 0 {
+			i++
+		}
+		if i >= len(format) {
+			break
+		}
+		switch format[i] {
+		case '%':
+			continue
+		case '*':
+			decline("Errorf with '*' operands")
+		case 'w':
+			if arg < len(a) {
+				if e, ok := a[arg].(error); ok {
+					return &wrapError{msg, e}
+				}
+			}
+			return &plainError{msg}
+		}
+		arg++
+	}
+	return &plainError{msg}
 }
